@@ -532,6 +532,19 @@ impl<'a, 'b> Adv<'a, 'b> {
             let parent_round = if refvalid::is_genesis_qc(&qc) { 0 } else { parent_round };
             let tc = if parent_round + 1 == r {
                 None
+            } else if self.t.chance(1, 3) {
+                // a forged TC for r-1: every authority "reports" a high QC no higher than the parent,
+                // the Byzantine entries are properly signed, the honest ones carry junk signatures
+                let b0 = self.byz[0];
+                let votes = (0..self.w.n)
+                    .map(|i| {
+                        let hq = QC { hash: Digest::default(), round: 0, votes: Vec::new() };
+                        let signer = if self.byz.contains(&i) { i } else { b0 };
+                        (self.w.pk(i), self.w.timeout(signer, r - 1, hq).signature, 0u64)
+                    })
+                    .collect();
+                self.stat("forged-tc");
+                Some(TC { round: r - 1, votes })
             } else {
                 // a TC for r-1: real if the pool has one, else assembled with stale Byzantine entries
                 let hq = if self.t.chance(1, 2) { 0 } else { parent_round };
@@ -981,7 +994,7 @@ fn run(case: &Case, _ctx: &Ctx) -> Outcome {
     });
     let committing = commits.values().filter(|v| v.len() >= 2).count();
     let attack = stats.contains_key("equivocation") || stats.contains_key("selective-reveal") || stats.contains_key("stale-timeout") || stats.contains_key("late-proposal");
-    for k in ["hopeful-sub-quorum-certificate", "template-double-chain", "template-late-after-timeout", "template-fabricated-chain", "two-certified-blocks-in-one-round", "equivocation", "double-vote", "selective-reveal", "bogus-certificate", "stale-timeout", "late-proposal", "partition", "wrong-leader-proposal", "replay", "cross-delivery"] {
+    for k in ["forged-tc", "hopeful-sub-quorum-certificate", "template-double-chain", "template-late-after-timeout", "template-fabricated-chain", "two-certified-blocks-in-one-round", "equivocation", "double-vote", "selective-reveal", "bogus-certificate", "stale-timeout", "late-proposal", "partition", "wrong-leader-proposal", "replay", "cross-delivery"] {
         if stats.contains_key(k) {
             out.class(k);
         }
